@@ -43,6 +43,9 @@ func fbb.parseProposalAnswer(str, props, l) (err)
   loop 0 invariant offset-range [C05]: i > 0 && IsOffset(c) ==> i <= len(props) && 0 <= props[i-1].offset && props[i-1].offset <= ProtocolOffsetSizeLimit
   at return#2 requires rejects-only-unknown [C05]: !(IsAccept(c) || IsOffset(c) || IsReject(c) || IsLater(c) || IsHeld(c))
   loop 1 invariant digits: 0 <= idx && idx <= len(str) && forall k :: 0 <= k && k < idx ==> '0' <= str[k] && str[k] <= '9'
+  # every answer consumes at least one character of the line: the parser cannot spin
+  loop 0 decreases len(str)
+  loop 1 decreases len(str) - idx
 
 func fbb.parseFW(line) (addrs, err)
   props C03 C05
